@@ -156,12 +156,15 @@ impl Property for P {
             Case { mc: 1, mms: 0, frames: vec![ch(1, 100, 2, true), ch(0, 50, 3, true), ch(1, 50, 4, true)] },
         ];
         if tier == "thorough" {
-            // every flag sequence of length <= 6 over {C, F, A} with 40-byte chunks under limits (2 chunks, 100 bytes)
-            for len in 1..=6u32 { for code in 0..3u32.pow(len) {
-                let mut k = code; let mut fr = Vec::new();
-                for i in 0..len { fr.push(ch((k % 3) as u8, 40, 2 + i, false)); k /= 3; }
-                v.push(Case { mc: 2, mms: 100, frames: fr });
-            } }
+            // every flag sequence of length <= 6 over {C, F, A}: 40-byte chunks under a chunk limit of 2,
+            // and 100-byte chunks under limits of 3 chunks / 250 bytes (the byte limit bites first)
+            for (mc, mms, size) in [(2usize, 0usize, 40usize), (3, 250, 100)] {
+                for len in 1..=6u32 { for code in 0..3u32.pow(len) {
+                    let mut k = code; let mut fr = Vec::new();
+                    for i in 0..len { fr.push(ch((k % 3) as u8, size, 2 + i, false)); k /= 3; }
+                    v.push(Case { mc, mms, frames: fr });
+                } }
+            }
         }
         v
     }
